@@ -24,7 +24,8 @@ PROPS = {
     "C10": dict(tests=[T("TestVerifC10", 60, 1200, pkg=".", shrinktime="0s")]),
     "C11": dict(tests=[T("TestVerifC11", 3000, 30000)]),
     "C12": dict(level="fault_enumeration", evaluations_from_extra="c12_faulted_loads", tests=[T("TestVerifC12", 1, 30, q_shards=16, q_timeout=900)]),
-    "C13": dict(tests=[T("TestVerifC13Group", 1500, 20000), T("TestVerifC13Store", 400, 6000, shrinktime="0s")]),
+    "C13": dict(tests=[T("TestVerifC13Group", 1500, 20000), T("TestVerifC13Store", 400, 6000, shrinktime="0s"),
+                       T("TestVerifC13GroupStress", 25, 200, shrinktime="0s", gomaxprocs=[16, 4, 8, 16])]),
     "C14": dict(tests=[T("TestVerifC14", 2500, 30000)]),
     "C15": dict(tests=[T("TestVerifC15", 2500, 30000)]),
     "C18": dict(tests=[T("TestVerifC18", 6000, 100000), T("TestVerifC18Loading", 300, 4000, shrinktime="0s"),
